@@ -468,6 +468,8 @@ class Facts:
     def __init__(self, path):
         with open(path) as f:
             self.raw = json.load(f)
+        from . import inline
+        self.n_inlined = inline.inline_all(self.raw)
         self.bodies = []
         self.by_path = {}
         for j in self.raw['bodies']:
@@ -481,6 +483,12 @@ class Facts:
         for b in self.bodies:
             if b.kind == 'Closure' and b.parent:
                 self.children.setdefault(b.parent, []).append(b)
+        # closures created by an inlined helper now belong to the body it was inlined into
+        for b in self.bodies:
+            for cp in b.raw.get('inlined', []):
+                for c in list(self.children.get(cp, [])):
+                    if c not in self.children.setdefault(b.path, []):
+                        self.children[b.path].append(c)
 
     def body(self, path):
         """exactly one body with this def path, else None"""
